@@ -17,7 +17,7 @@ scheduler.  Terminal: every dependent instance ran.
 """
 from __future__ import annotations
 
-from typing import List, Set, Tuple
+from typing import List, Set
 
 from .monitors import env_done, latest_jobs
 from .profile import Monitor, OpProfile
